@@ -1,11 +1,78 @@
 (* C13 -- access lists exactly the non-N runs of the genome, joined and excluded as asked.
-   Property theorems only; proofs live in Proofs/Access.v. *)
-From CNV Require Import Base.Prelude Base.Str Spec.Runs Model.Access Proofs.Access.
+   Property theorems only; proofs live in Proofs/Access*.v. *)
+From CNV Require Import Base.Prelude Base.Str Spec.Runs Spec.Regions Model.Access
+  Proofs.Access Proofs.AccessJoin Gen.AccessDefaults.
 
 (* For every FASTA record, whatever the line width (any cut of the sequence into
-   non-empty lines), the scanner returns exactly the maximal non-N runs of the
-   concatenated sequence, in order. *)
+   non-empty lines), the scanner returns exactly `runs` of the concatenated
+   sequence, in order. *)
 Theorem C13_scan : forall lines : list string,
   Forall (fun l => l <> ""%string) lines ->
   get_regions_record lines = runs isN_ascii (concat (map chars lines)).
 Proof. exact get_regions_record_runs. Qed.
+
+(* ... and `runs` is the mathematical object of the property: it covers exactly
+   the positions holding a character other than 'N' ... *)
+Theorem C13_runs_cover : forall (s : list ascii) (x : Z),
+  cov (runs isN_ascii s) x <-> nonN_at isN_ascii s x.
+Proof. exact (runs_cover isN_ascii). Qed.
+
+(* ... by non-empty regions, starting at >= 0, sorted, separated by at least one
+   base (which by C13_runs_cover is an N): each region is a maximal run. *)
+Theorem C13_runs_sep : forall s : list ascii, sep_from 1 (-1) (runs isN_ascii s).
+Proof. exact (runs_sep isN_ascii). Qed.
+
+(* 'n' is not 'N' *)
+Example C13_lowercase_n_is_accessible :
+  get_regions_record ["NNnnAC"; "GTNN"; "NA"]%string = [(2, 8); (11, 12)].
+Proof. reflexivity. Qed.
+
+(* join_regions on one chromosome's non-empty, strictly separated regions: the
+   assertion never fires ... *)
+Theorem C13_join_ok : forall g rows,
+  wf_regions (-1) rows -> exists r, join_regions g rows = Some r.
+Proof. exact join_regions_ok. Qed.
+
+(* ... the output covers exactly the input plus the gaps smaller than g (a gap of
+   size >= g is never bridged) ... *)
+Theorem C13_join_cover : forall g rows r,
+  wf_regions (-1) rows -> join_regions g rows = Some r ->
+  forall x, cov r x <->
+    cov rows x \/ match rows with [] => False | (_, e) :: t => bridged g e t x end.
+Proof. exact join_regions_cover. Qed.
+
+(* ... and output regions are non-empty, sorted and separated by >= max 1 g bases. *)
+Theorem C13_join_sep : forall g rows r,
+  wf_regions (-1) rows -> join_regions g rows = Some r ->
+  match r with
+  | [] => rows = []
+  | (a, b) :: t => a < b /\ sep_from (Z.max 1 g) b t
+  end.
+Proof. exact join_regions_sep. Qed.
+
+Example C13_join_example :
+  wf_regions (-1) [(0, 5); (6, 9); (20, 30)] /\
+  join_regions 3 [(0, 5); (6, 9); (20, 30)] = Some [(0, 9); (20, 30)].
+Proof. cbn. repeat split; lia. Qed.
+
+(* The contig-name rule: Model.Access.noncanonical was written for exactly these
+   alternatives of antitarget.re_noncanonical (regenerated from /repo on every run):
+   EBV, NC*/random, Un, HLA, alt, hap<digit>, chrM, MT. *)
+Theorem C13_contig_rule_source :
+  re_noncanonical_alts =
+  ["^chrEBV$"; "^NC|_random$"; "Un_"; "^HLA\-"; "_alt$"; "hap\d$"; "chrM"; "MT"]%string.
+Proof. reflexivity. Qed.
+
+Theorem C13_contigs : forall name : string,
+  is_canonical_contig_name name = false <->
+  (name = "chrEBV"%string \/ str_prefix "NC" name = true \/ str_suffix "_random" name = true \/
+   str_infix "Un_" name = true \/ str_prefix "HLA-" name = true \/ str_suffix "_alt" name = true \/
+   ends_hap_digit (chars name) = true \/ str_infix "chrM" name = true \/ str_infix "MT" name = true).
+Proof. exact noncanonical_spec. Qed.
+
+Example C13_contigs_examples :
+  map is_canonical_contig_name
+    ["chr1"; "X"; "chrM"; "MT"; "chr1_KI270706v1_random"; "chrUn_gl000211"; "HLA-A*01:01";
+     "chr6_GL000250v2_alt"; "chrEBV"; "chr6_apd_hap1"]%string
+  = [true; true; false; false; false; false; false; false; false; false].
+Proof. reflexivity. Qed.
